@@ -1,6 +1,6 @@
 (* C03 -- the ABF object is resumable (every numeric carrier). *)
 From Coq Require Import ZArith List Bool Lia Arith.
-From CV Require Import Base.Num C03.ResumeModel C03.ResumeProofs C04.ABFModel C03.AbfObject.
+From CV Require Import Base.Num C03.ResumeModel C03.ResumeProofs C04.ABFModel C03.UsesC04.
 Import ListNotations.
 Local Open Scope Z_scope.
 
@@ -37,7 +37,7 @@ Section AbfResume.
     s_started s = true /\ s_started s' = true /\ 0 <= s_rel s /\ 0 <= s_rel s' /\
     s_cnt s = s_cnt s' /\ s_sum s = s_sum s' /\ s_bin s = s_bin s' /\ s_fbin s = s_fbin s' /\
     s_fabf s = s_fabf s' /\ s_fprev s = s_fprev s' /\ s_fold s = s_fold s' /\ s_eng s = s_eng s' /\
-    s_fj s = s_fj s' /\
+    s_fj s = s_fj s' /\ s_japp s = s_japp s' /\
     (forall k, measured c k = false -> vget O (s_ft s) k = vget O (s_ft s') k).
 
   (* what must agree: the bin, the ABF force computed and applied, the total force on the variables
@@ -48,7 +48,7 @@ Section AbfResume.
   Definition abf_out_eq (o o' : @abf_out T) : Prop :=
     abf_out_eq0 o o' /\ o_tf o = o_tf o' /\ o_cont o = o_cont o'.
 
-  Ltac prj := cbn [s_cnt s_sum s_bin s_fbin s_fabf s_fprev s_ft s_fold s_eng s_fj s_rel s_started
+  Ltac prj := cbn [s_cnt s_sum s_bin s_fbin s_fabf s_fprev s_ft s_fold s_eng s_fj s_rel s_started s_japp
                    o_bin o_fabf o_fapp o_f o_rel o_cont o_tf i_x i_e i_o i_j i_boundary fst snd] in *.
 
   (* ---- two states that agree as abf_eqv demands, both past their first step, make the same step ---- *)
@@ -56,37 +56,35 @@ Section AbfResume.
     abf_eqv c (fst (abf_step O c s (no_boundary i))) (fst (abf_step O c s' (no_boundary i))) /\
     abf_out_eq (snd (abf_step O c s (no_boundary i))) (snd (abf_step O c s' (no_boundary i))).
   Proof.
-    intros (A1 & A2 & A3 & A4 & A5 & A6 & A7 & A8 & A9 & A10 & A11 & A12 & A13 & A14).
-    destruct s as [cnt sum bn fbn fabf fprev ft fold eng fj rel st].
-    destruct s' as [cnt' sum' bn' fbn' fabf' fprev' ft' fold' eng' fj' rel' st']. prj. subst.
+    intros (A1 & A2 & A3 & A4 & A5 & A6 & A7 & A8 & A9 & A10 & A11 & A12 & A13 & A15 & A14).
+    (* the two states are read through their fields only: no use is made of the shape of the record *)
     set (j := no_boundary i).
-    set (S1 := mkSt cnt' sum' bn' fbn' fabf' fprev' ft fold' eng' fj' rel true).
-    set (S2 := mkSt cnt' sum' bn' fbn' fabf' fprev' ft' fold' eng' fj' rel' true).
-    assert (P : (0 <? fst (st_clk S1 j)) = true /\ (0 <? fst (st_clk S2 j)) = true /\
-                snd (st_clk S1 j) = false /\ snd (st_clk S2 j) = false /\
-                0 <= fst (st_clk S1 j) /\ 0 <= fst (st_clk S2 j)).
-    { unfold st_clk, clock, S1, S2, j, no_boundary. prj. repeat split; try (apply Z.ltb_lt); lia. }
+    assert (P : (0 <? fst (st_clk s j)) = true /\ (0 <? fst (st_clk s' j)) = true /\
+                snd (st_clk s j) = false /\ snd (st_clk s' j) = false /\
+                0 <= fst (st_clk s j) /\ 0 <= fst (st_clk s' j)).
+    { unfold st_clk, clock, j, no_boundary. prj. rewrite A1, A2. cbn [fst snd]. repeat split; try (apply Z.ltb_lt); lia. }
     destruct P as (P1 & P2 & P3 & P4 & P5 & P6).
-    assert (F0 : st_ft0 O c S1 j = st_ft0 O c S2 j).
-    { unfold st_ft0. apply vbuild_ext. intros k Hk. rewrite P1, P2. unfold S1, S2. prj.
+    assert (Fa : forall k, addj c s k = addj c s' k) by (intros k; unfold addj; rewrite A15; reflexivity).
+    assert (F0 : st_ft0 O c s j = st_ft0 O c s' j).
+    { unfold st_ft0. apply vbuild_ext. intros k Hk. rewrite P1, P2, Fa, A12, A13.
       destruct (c_update c || bget (c_subtract c) k) eqn:E; [reflexivity|]. apply A14. exact E. }
-    assert (F1 : st_ft O c S1 j = st_ft O c S2 j).
-    { unfold st_ft. rewrite F0, P1, P2. unfold S1, S2. prj. reflexivity. }
-    assert (F2 : st_fbin O c S1 j = st_fbin O c S2 j) by (unfold st_fbin, S1, S2; prj; reflexivity).
-    assert (F3 : st_doacc O c S1 j = st_doacc O c S2 j).
+    assert (F1 : st_ft O c s j = st_ft O c s' j).
+    { unfold st_ft. rewrite F0, P1, P2, A11. reflexivity. }
+    assert (F2 : st_fbin O c s j = st_fbin O c s' j) by (unfold st_fbin; rewrite A8; reflexivity).
+    assert (F3 : st_doacc O c s j = st_doacc O c s' j).
     { unfold st_doacc. cbn zeta. rewrite P1, P2, P3, P4, F2. reflexivity. }
-    assert (F4 : st_sysf O c S1 j = st_sysf O c S2 j).
-    { unfold st_sysf. rewrite F1. unfold S1, S2. prj. reflexivity. }
-    assert (F5 : st_cnt O c S1 j = st_cnt O c S2 j).
-    { unfold st_cnt. rewrite F3, F2. unfold S1, S2. prj. reflexivity. }
-    assert (F6 : st_sum O c S1 j = st_sum O c S2 j).
-    { unfold st_sum. rewrite F3, F2, F4. unfold S1, S2. prj. reflexivity. }
-    assert (F7 : st_fabf O c S1 j = st_fabf O c S2 j) by (unfold st_fabf; rewrite F5, F6; reflexivity).
-    assert (F8 : st_fapp O c S1 j = st_fapp O c S2 j) by (unfold st_fapp; rewrite F7; reflexivity).
-    assert (F9 : st_f O c S1 j = st_f O c S2 j) by (unfold st_f; rewrite F8; reflexivity).
-    assert (F10 : st_fold O c S1 j = st_fold O c S2 j).
-    { unfold st_fold. rewrite F9. unfold S1, S2. prj. reflexivity. }
-    assert (F11 : st_eng O c S1 j = st_eng O c S2 j) by (unfold st_eng; rewrite F9; reflexivity).
+    assert (F4 : st_sysf O c s j = st_sysf O c s' j).
+    { unfold st_sysf. rewrite F1, A10. reflexivity. }
+    assert (F5 : st_cnt O c s j = st_cnt O c s' j).
+    { unfold st_cnt. rewrite F3, F2, A5. reflexivity. }
+    assert (F6 : st_sum O c s j = st_sum O c s' j).
+    { unfold st_sum. rewrite F3, F2, F4, A6. reflexivity. }
+    assert (F7 : st_fabf O c s j = st_fabf O c s' j) by (unfold st_fabf; rewrite F5, F6; reflexivity).
+    assert (F8 : st_fapp O c s j = st_fapp O c s' j) by (unfold st_fapp; rewrite F7; reflexivity).
+    assert (F9 : st_f O c s j = st_f O c s' j) by (unfold st_f; rewrite F8; reflexivity).
+    assert (F10 : st_fold O c s j = st_fold O c s' j).
+    { unfold st_fold. rewrite F9, A11. reflexivity. }
+    assert (F11 : st_eng O c s j = st_eng O c s' j) by (unfold st_eng; rewrite F9; reflexivity).
     unfold abf_step, abf_eqv, abf_out_eq, abf_out_eq0. prj.
     rewrite F1, F5, F6, F7, F8, F9, F10, F11, P3, P4.
     repeat split; auto.
@@ -143,7 +141,7 @@ Section AbfResume.
     unfold abf_step at 1 2 4. prj.
     set (L := abf_load O c (st_cnt O c s j, st_sum O c s j)).
     assert (D : st_doacc O c L j = false).
-    { unfold st_doacc, st_clk, clock, L, abf_load, j, no_boundary. prj. unfold abf_ok in Hc. rewrite Hc. reflexivity. }
+    { unfold st_doacc, st_clk, clock, L, abf_load, abf_init, j, no_boundary. prj. unfold abf_ok in Hc. rewrite Hc. reflexivity. }
     assert (G1 : st_cnt O c L j = st_cnt O c s j) by (unfold st_cnt at 1; rewrite D; reflexivity).
     assert (G2 : st_sum O c L j = st_sum O c s j) by (unfold st_sum at 1; rewrite D; reflexivity).
     assert (G3 : st_fabf O c L j = st_fabf O c s j).
@@ -153,27 +151,27 @@ Section AbfResume.
     assert (G6 : st_fold O c L j = st_fold O c s j).
     { unfold st_fold. rewrite G5. apply vbuild_ext. intros k Hk.
       destruct (bget (c_subtract c) k) eqn:E; [reflexivity|].
-      unfold L, abf_load. prj. rewrite vget_vzero. symmetry. apply I3. exact E. }
+      unfold L, abf_load, abf_init. prj. rewrite vget_vzero. symmetry. apply I3. exact E. }
     assert (G7 : st_eng O c L j = st_eng O c s j) by (unfold st_eng; rewrite G5; reflexivity).
     unfold abf_step. prj. fold L. rewrite G1, G2, G3, G4, G5, G6, G7.
     unfold abf_eqv, abf_out_eq0. prj.
     repeat split; auto.
     - apply clk_nonneg; auto.
-    - unfold st_clk, clock, L, abf_load, j, no_boundary. prj. lia.
+    - unfold st_clk, clock, L, abf_load, abf_init, j, no_boundary. prj. lia.
     - intros k Hm. rewrite (ft_unmeasured c s j k Hm (I2 k Hm)).
-      symmetry. apply ft_unmeasured; auto. unfold L, abf_load. prj. apply vget_vzero.
+      symmetry. apply ft_unmeasured; auto. unfold L, abf_load, abf_init. prj. apply vget_vzero.
   Qed.
 
   (* with same-step total forces the engine has the total force of the re-executed step: it is reported again *)
-  Lemma reexec_total_force_same_step c s i : abf_ok c -> abf_inv c s -> c_same_step c = true ->
-    let so := abf_step O c s (no_boundary i) in
-    let so' := abf_step O c (abf_load O c (s_cnt (fst so), s_sum (fst so))) (no_boundary i) in
-    o_tf (snd so) = o_tf (snd so').
+  Lemma reexec_total_force_same_step c s i : abf_ok c -> abf_inv c s -> abf_same_step c = true ->
+    abf_reported_total_force O c s i =
+    abf_reported_total_force O c (abf_load O c (abf_saved_after_step O c s i)) i.
   Proof.
-    intros Hc (I1 & I2 & I3) Hs. cbn zeta. unfold abf_step. prj.
+    intros Hc (I1 & I2 & I3) Hs. unfold abf_same_step in Hs. unfold abf_reported_total_force, abf_saved_after_step. cbn zeta. unfold abf_step. prj.
     unfold st_ft. rewrite Hs. unfold st_ft0. apply vbuild_ext. intros k Hk. rewrite Hs.
+    unfold addj. rewrite Hs, !orb_true_r. cbn [orb].
     destruct (c_update c || bget (c_subtract c) k) eqn:E; [reflexivity|].
-    unfold abf_load. prj. rewrite vget_vzero. apply I2. exact E.
+    unfold abf_load, abf_init. prj. rewrite vget_vzero. apply I2. exact E.
   Qed.
 
   Theorem abf_resumable :
